@@ -1332,7 +1332,7 @@ mod expression_parser {
                 body: Box::new(body),
               });
             } else {
-              let tuple_elements = parameters_or_tuple_elements_cover
+              let mut tuple_elements = parameters_or_tuple_elements_cover
                 .into_iter()
                 .map(|name| {
                   expr::E::LocalId(
@@ -1346,6 +1346,14 @@ mod expression_parser {
                 })
                 .collect_vec();
               let loc = peeked_loc.union(&right_parenthesis_loc);
+              if tuple_elements.len() == 1 {
+                // `(a,)`: there is no one-element tuple; report it and carry on with `a` itself.
+                parser.error_set.report_invalid_syntax_error(
+                  loc,
+                  "A tuple needs at least two elements".to_string(),
+                );
+                return tuple_elements.pop().unwrap();
+              }
               return expr::E::Tuple(
                 expr::ExpressionCommon {
                   loc,
